@@ -5,7 +5,6 @@ package main
 // the map-backed simple graphs.
 
 import (
-	"math"
 	"sort"
 
 	"gonum.org/v1/gonum/graph"
@@ -76,8 +75,8 @@ func undirectView(c *vrt.Ctx, r *runner) {
 		wd := r.s.g.(graph.WeightedDirected)
 		u1 := graph.UndirectWeighted{G: wd, Absent: -11}
 		views = append(views, view{"Absent=-11,Merge=nil", u1, u1, -11, nil})
-		u2 := graph.UndirectWeighted{G: wd, Absent: 3, Merge: mergeMaxNil}
-		views = append(views, view{"Absent=3,Merge=max-with-nil-penalty", u2, u2, 3, mergeMaxNil})
+		u2 := graph.UndirectWeighted{G: wd, Absent: 3, Merge: mergePairs}
+		views = append(views, view{"Absent=3,Merge=pairing-sensitive", u2, u2, 3, mergePairs})
 		u3 := graph.UndirectWeighted{G: wd}
 		views = append(views, view{"zero-value-options", u3, u3, 0, nil})
 	} else {
@@ -131,14 +130,24 @@ func undirectView(c *vrt.Ctx, r *runner) {
 	}
 }
 
-// mergeMaxNil is a commutative Merge that depends on both weights and on
-// which of the edges exist.
-func mergeMaxNil(x, y float64, xe, ye graph.Edge) float64 {
-	w := math.Max(x, y)
-	if xe == nil || ye == nil {
-		w -= 0.25
+// mergePairs is a Merge that is commutative in the (weight, edge) PAIRS, as the
+// documentation allows ("the order of weight parameters passed to Merge is
+// not defined"), but depends on which edge comes with which weight ("the
+// edges corresponding to the two weights are also passed, in the same
+// order"): a weight that comes with an edge counts 1000-fold, a weight that
+// comes with nil counts once, and an edge whose own weight is not the weight
+// it is passed with yields a sentinel.
+func mergePairs(x, y float64, xe, ye graph.Edge) float64 {
+	term := func(w float64, e graph.Edge) float64 {
+		if e == nil {
+			return w
+		}
+		if we, ok := e.(graph.WeightedEdge); ok && !sameW(we.Weight(), w) {
+			return -987654321
+		}
+		return 1000 * w
 	}
-	return w
+	return term(x, xe) + term(y, ye)
 }
 
 func undirectSweep(g graph.Undirected, wg graph.WeightedUndirected, m *model, universe []int64, self, absent, viewAbsent float64, merge func(x, y float64, xe, ye graph.Edge) float64, nq *int64) *mismatch {
@@ -214,14 +223,15 @@ func undirectSweep(g graph.Undirected, wg graph.WeightedUndirected, m *model, un
 				wantW, wantOK := (fw+rw)/2, fok || rok
 				exists := fe != "nil" || re != "nil"
 				if merge != nil {
-					var xe, ye graph.Edge
-					if fe != "nil" {
-						xe = E{}
+					// The model's own evaluation of mergePairs: each weight is
+					// paired with the edge of its own direction.
+					term := func(w float64, exists bool) float64 {
+						if exists {
+							return 1000 * w
+						}
+						return w
 					}
-					if re != "nil" {
-						ye = E{}
-					}
-					wantW = merge(fw, rw, xe, ye)
+					wantW = term(fw, fe != "nil") + term(rw, re != "nil")
 				}
 				gw, gok := wg.Weight(x, y)
 				// With an explicit Merge the weight of a pair without any edge
